@@ -7,7 +7,7 @@
 (* the observed wrong answer is the one the deviation predicts.  Anything  *)
 (* else is a violation.  A deviation that is not open matches nothing.     *)
 (***************************************************************************)
-EXTENDS Chars, Dpkg, Rpm, Alpm, MavenCV, Pep440
+EXTENDS Chars, Dpkg, Rpm, Alpm, MavenCV, Pep440, ShorthandSem
 
 \* mm is a mismatch record; the fields used depend on the deviation.
 Dev(d, mm) ==
@@ -31,6 +31,12 @@ Dev(d, mm) ==
     [] d = "KF-pypi-01" -> mm.prop = "C09" /\ mm.why = "ref"
                            /\ (PHasLocal(S2C(mm.a)) \/ PHasLocal(S2C(mm.b)))
                            /\ PepImplCmp(S2C(mm.a), S2C(mm.b)) = mm.got
+    \* hex: "~> X.Y" with Y > 0 is expanded to >= X.Y.0 and < X.(Y+1).0 instead of < (X+1).0.0 (Elixir's
+    \* Version docs); pinned by the repository's tests (~>1.14 must not contain 1.15.7).  Known iff the
+    \* observed membership is that of the narrower interval.
+    [] d = "KF-hex-01" -> mm.prop = "C05" /\ mm.eco = "hex" /\ mm.why = "contains" /\ mm.construct = "pess2"
+                          /\ LET lo == mm.ivs[1].lo IN
+                             lo[2] > 0 /\ mm.got = InIv(mm.p, Iv(lo, TRUE, V(lo[1], lo[2] + 1, 0, 3), FALSE))
     [] d = "KF-rpm-01" -> mm.prop = "C11" /\ mm.why = "ref" /\ RpmImplCmp(S2C(mm.a), S2C(mm.b)) = mm.got
     [] OTHER -> FALSE
 
